@@ -178,6 +178,8 @@ pub struct Exec<'a> {
     pub state_hash: u64,
     pub steps_run: usize,
     pub refused_at_step: u32,
+    /// concrete values of state-relative arguments (`*Rem` ops), by pc, so that a replayed scope body repeats the same requests
+    pub rem_log: Vec<(usize, usize)>,
 }
 
 macro_rules! viol {
@@ -208,11 +210,25 @@ impl<'a> Exec<'a> {
             state_hash: 0,
             steps_run: 0,
             refused_at_step: 0,
+            rem_log: Vec::new(),
         }
     }
 
     fn on(&self, g: u32) -> bool {
         self.opts.groups & g != 0 && !self.replaying
+    }
+
+    /// value of a state-relative argument: computed from the current state, or — while replaying a scope body —
+    /// the value the first execution used at the same program counter
+    fn rem_value(&mut self, now: usize) -> usize {
+        let pc = self.pc;
+        if self.replaying {
+            if let Some(&(_, v)) = self.rem_log.iter().rev().find(|e| e.0 == pc) {
+                return v;
+            }
+        }
+        self.rem_log.push((pc, now));
+        now
     }
 
     fn stop(&self) -> bool {
@@ -278,7 +294,8 @@ impl<'a> Exec<'a> {
                     return Flow::Exit;
                 }
                 Op::ExitUnwind => {
-                    if self.model.frames.is_empty() {
+                    // the checkpoint region is a manual checkpoint()/reset_to() pair: unwinding out of it is not a scope end
+                    if self.model.frames.is_empty() || self.model.frames.last().unwrap().region == Region::Checkpoint {
                         self.disable();
                         return Flow::Done;
                     }
@@ -328,6 +345,7 @@ impl<'a> Exec<'a> {
             return;
         }
         let entry = self.snapshot_entry(arena);
+        // `is_scope`: blocks created inside die when the region is left (ByValue: bounded by the borrow)
         let is_scope = !matches!(region, Region::Aligned(_) | Region::Claim);
         self.model.frames.push(Frame { region, entry, is_scope, touched_outer: false });
         if self.model.scope_depth() >= 2 {
@@ -397,6 +415,7 @@ impl<'a> Exec<'a> {
             && self.opts.probes
             && self.check_now()
             && frame.is_scope
+            && frame.region != Region::ByValue
             && !frame.touched_outer
             && !unwound
             && slab::with_current(|s| s.cfg.fail_mask) == 0
@@ -482,7 +501,7 @@ impl<'a> Exec<'a> {
         arena.d_stats(&mut self.st);
         let st = &self.st;
         let e = frame.entry;
-        if frame.is_scope && self.on(grp::RESTORE) {
+        if frame.is_scope && frame.region != Region::ByValue && self.on(grp::RESTORE) {
             let pos = st.current.map_or(0, |c| c.pos);
             let cur = st.current.map_or(0, |c| c.chunk_start);
             if e.cur != 0 {
@@ -559,6 +578,7 @@ impl<'a> Exec<'a> {
             Op::AllocRem { extra, align } => {
                 arena.d_stats(&mut self.st);
                 let rem = self.st.current.map_or(0, |c| c.remaining);
+                let rem = self.rem_value(rem);
                 let layout = Layout::from_size_align(rem + extra as usize, align as usize).unwrap();
                 self.do_alloc(arena, h, layout, false);
             }
@@ -574,6 +594,7 @@ impl<'a> Exec<'a> {
                 let b = self.model.blocks[i];
                 arena.d_stats(&mut self.st);
                 let rem = self.st.current.map_or(0, |c| c.remaining);
+                let rem = self.rem_value(rem);
                 let new = Layout::from_size_align(b.size + rem + extra as usize, b.align).unwrap();
                 self.do_grow(arena, h, i, new, false);
             }
@@ -628,7 +649,8 @@ impl<'a> Exec<'a> {
             Op::Reserve { n, try_ } => self.do_reserve(arena, h, n as usize, try_),
             Op::ReserveRem { extra } => {
                 arena.d_stats(&mut self.st);
-                let n = self.st.remaining + extra as usize;
+                let n = self.st.remaining;
+                let n = self.rem_value(n) + extra as usize;
                 self.do_reserve(arena, h, n, true);
             }
             Op::Reset | Op::ResetToStart => {
@@ -651,12 +673,41 @@ impl<'a> Exec<'a> {
                     self.check_reset(arena, matches!(op, Op::Reset), &before, &grants_before);
                 }
             }
-            Op::TryWith { mutable, ok, inner } => self.do_try_with(arena, mutable, ok, inner),
+            Op::TryWith { mutable, ok, inner, try_ } => self.do_try_with(arena, mutable, ok, inner, try_),
             Op::Orig(o) => {
                 let Some(orig) = orig else { return self.disable() };
                 self.do_orig(arena, orig, o);
             }
             Op::Nop => {}
+            Op::AllocHuge { align } => {
+                let a = align as usize;
+                let l = Layout::from_size_align((isize::MAX as usize) & !(a - 1), a).unwrap();
+                let calls = self.count_calls();
+                if Via::new(arena, h).allocate(l, false).is_ok() {
+                    viol!(self, grp::FAILURE, "allocate({l:?}) succeeded");
+                }
+                if Via::new(arena, h).typed(TypedOp::Layout(l.size(), a), true).is_ok() {
+                    viol!(self, grp::FAILURE, "try_allocate_layout({l:?}) succeeded");
+                }
+                let _ = calls;
+                self.model.last_returned = None;
+            }
+            Op::GrowHuge { sel } => {
+                let Some(i) = self.model.select(sel) else { return self.disable() };
+                let b = self.model.blocks[i];
+                let l = Layout::from_size_align((isize::MAX as usize) & !(b.align - 1), b.align).unwrap();
+                if unsafe { Via::new(arena, h).grow(b.ptr, b.layout(), l, false) }.is_ok() {
+                    viol!(self, grp::FAILURE, "grow to {l:?} succeeded");
+                }
+                self.model.last_returned = None;
+            }
+            Op::ReserveHuge { max } => {
+                let n = if max { usize::MAX } else { isize::MAX as usize };
+                if Via::new(arena, h).reserve(n, true).is_ok() {
+                    viol!(self, grp::FAILURE, "try_reserve({n}) succeeded");
+                }
+                self.model.last_returned = None;
+            }
             Op::Enter(_) | Op::Exit | Op::ExitUnwind => unreachable!(),
         }
         let _ = cfg;
@@ -758,7 +809,8 @@ impl<'a> Exec<'a> {
         let calls = self.count_calls();
         arena.d_stats(&mut self.st2);
         let count_before = self.st2.count;
-        let was_last_returned = self.model.last_returned == Some(b.id);
+        let adjacent = self.is_adjacent(&self.st2.clone(), arena.d_cfg().up, &b);
+        let was_last_returned = self.model.last_returned == Some(b.id) && adjacent;
         let room = self.room_after(arena, &b);
         let r = unsafe { Via::new(arena, h).grow(b.ptr, b.layout(), new, zeroed) };
         match r {
@@ -787,7 +839,9 @@ impl<'a> Exec<'a> {
                     self.cover.inplace_realloc = true;
                 }
                 // C13: growing the most recent allocation in an upward arena with enough room stays in place
-                if self.on(grp::RECLAIM) && arena.d_cfg().up && was_last_returned && b.size > 0 && b.addr() % new.align() == 0 {
+                // (the statement covers allocations whose size is a multiple of the minimum alignment, with deallocation enabled)
+                let cfg = arena.d_cfg();
+                if self.on(grp::RECLAIM) && cfg.up && cfg.deallocates && !h.suppresses_dealloc() && was_last_returned && b.size > 0 && b.size % cfg.min_align == 0 && b.addr() % new.align() == 0 {
                     if let Some(room) = room {
                         if new.size() <= room && moved {
                             viol!(self, grp::RECLAIM, "grow of the most recent allocation {:?}→{new:?} moved although {} bytes were available in place", b.layout(), room);
@@ -896,7 +950,9 @@ impl<'a> Exec<'a> {
         arena.d_stats(&mut self.st2);
         let alloc_before = self.st2.allocated;
         let adjacent = self.is_adjacent(&self.st2.clone(), arena.d_cfg().up, &b);
-        let was_last_returned = self.model.last_returned == Some(b.id);
+        // "most recent allocation": returned by the immediately preceding call *and* still touching the bump position
+        // (a shrink that was not allowed to reclaim returns the block without making it adjacent)
+        let was_last_returned = self.model.last_returned == Some(b.id) && adjacent;
         unsafe { Via::new(arena, h).deallocate(b.ptr, b.layout()) };
         self.kill_at(i);
         self.model.last_returned = None;
@@ -1175,14 +1231,14 @@ impl<'a> Exec<'a> {
         }
     }
 
-    fn do_try_with(&mut self, arena: &mut dyn DynArena, mutable: bool, ok: bool, inner: Option<(u32, u32)>) {
+    fn do_try_with(&mut self, arena: &mut dyn DynArena, mutable: bool, ok: bool, inner: Option<(u32, u32)>, try_: bool) {
         if mutable && inner.is_some() {
             return self.disable();
         }
         let entry = self.snapshot_entry(arena);
         let inner_layout = inner.map(|(s, a)| Layout::from_size_align(s as usize, a as usize).unwrap());
         self.dirty_free = true;
-        let r = arena.d_alloc_try_with(mutable, ok, inner_layout);
+        let r = arena.d_alloc_try_with(mutable, ok, inner_layout, try_);
         self.model.last_returned = None;
         match r {
             Ok(blk) => {
@@ -1209,7 +1265,7 @@ impl<'a> Exec<'a> {
                     return;
                 }
                 // C03: Err without own allocations restores the position exactly
-                if inner.is_none() && self.on(grp::RESTORE) && self.check_now() {
+                if inner.is_none() && self.on(grp::RESTORE) && self.check_now() && slab::with_current(|s| s.refused) == self.refused_at_step {
                     arena.d_stats(&mut self.st);
                     let pos = self.st.current.map_or(0, |c| c.pos);
                     let cur = self.st.current.map_or(0, |c| c.chunk_start);
@@ -1275,10 +1331,15 @@ impl<'a> Exec<'a> {
                 }
             }
             OrigOp::ZstTyped => {
-                // zero-sized values never touch the allocator
-                let r = catch_unwind(AssertUnwindSafe(|| via.typed(TypedOp::SliceU64(0), false)));
-                if r.is_err() {
-                    viol!(self, g, "allocating a zero-length slice on a claimed allocator panicked");
+                // values of zero-sized types never touch the allocator
+                let r = catch_unwind(AssertUnwindSafe(|| via.typed(TypedOp::AllocUnit, false)));
+                match r {
+                    Err(_) => viol!(self, g, "alloc(()) of a zero-sized value on a claimed allocator panicked"),
+                    Ok(Err(())) => viol!(self, g, "alloc(()) of a zero-sized value on a claimed allocator failed"),
+                    Ok(Ok(_)) => {}
+                }
+                if via.typed(TypedOp::AllocUnit, true).is_err() {
+                    viol!(self, g, "try_alloc(()) of a zero-sized value on a claimed allocator failed");
                 }
             }
             OrigOp::GrowOld | OrigOp::ShrinkOld | OrigOp::DeallocOld => {
@@ -1351,8 +1412,9 @@ impl<'a> Exec<'a> {
                 }
             }
             OrigOp::ClaimAgain => {
-                // a second claim on the claimed original must panic; run it through a region on a *shared* handle is
-                // impossible with `&mut` regions, so it is part of the facade's Claim region only; here: is_claimed
+                if !orig.d_second_claim_panics() {
+                    viol!(self, g, "a second claim() on a claimed allocator did not panic");
+                }
                 if !via.is_claimed() {
                     viol!(self, g, "is_claimed() is false while a claim guard is alive");
                 }
